@@ -64,6 +64,7 @@ def swarm(prop, r, tier):
         if prop == "C09":
             cfg["limits"] = R.pick([0.6, 0.9])
             cfg["rt"] = 0.7
+            w["edit"] = 4
         if prop == "C05":
             cfg["mux"] = 1.0
             cfg["multi_source"] = R.pick([0.5, 1.0])
@@ -142,7 +143,16 @@ def drive(sess, rnd, cfg, record):
             else:
                 ops = [g.op_add_comp(m)]
         elif grp == "edit":
-            ops = [R.wpick([(g.op_change, 3), (g.op_del, 2)])(m)]
+            if prop == "C09" and R.chance(0.65):
+                e = g.op_near_limits(m)
+                ops = [e]
+                if e and m.phase_conf.get(e["name"]):
+                    # change_comp resets the phase configuration: put it back
+                    ops.append({"op": "set_comp_phases", "name": e["name"], "conf": copy.deepcopy(m.phase_conf[e["name"]])})
+                if e:
+                    ops.append(make_observe(g, m, cfg))
+            else:
+                ops = [R.wpick([(g.op_change, 3), (g.op_del, 2)])(m)]
         elif grp == "reject":
             classes = g.reject_classes(m)
             k = len(classes) if cfg.get("all_rejects") else R.randint(1, 4)
